@@ -112,6 +112,24 @@ void ParallelAction::onPause() {
 void ParallelAction::onResume() {
     AssembleAction::onResume();
 
+    //! results of children that finished while this action was paused
+    bool is_trigger = false;
+    for (auto &item : finished_children_) {
+        if ((mode_ == Mode::kAnySucc && item.second) ||
+            (mode_ == Mode::kAnyFail && !item.second))
+            is_trigger = true;
+    }
+
+    if (is_trigger) {
+        stopAllActions();
+        finish(true);
+        return;
+
+    } else if (finished_children_.size() == children_.size()) {
+        finish(true);
+        return;
+    }
+
     for (Action *action : children_) {
         if (action->state() == State::kPause)
             action->resume();
@@ -150,6 +168,10 @@ void ParallelAction::onChildFinished(int index, bool is_succ) {
         } else if (finished_children_.size() == children_.size()) {
             finish(true);
         }
+
+    } else if (state() == State::kPause) {
+        //! keep the result, onResume() evaluates it
+        finished_children_[index] = is_succ;
     }
 }
 
